@@ -15,8 +15,8 @@ SOURCES = ["src/asyncio_taskpool/control/server.py", "src/asyncio_taskpool/contr
 PROOF = {"C19": {"module": "Thm_C19",
                  "theorems": ["C19_serving_until_stop", "C19_clients_served", "C19_disconnect_is_local",
                               "C19_stop", "C19_socket_file", "C19_restart",
-                              "C19_pending_handshake_is_local"],
-                 "files": ["srv/SModel.v", "srv/SProofs.v", "srv/Thm_C19.v"]}}
+                              "C19_pending_handshake_is_local", "C19_stop_completes"],
+                 "files": ["srv/SModel.v", "srv/SProofs.v", "srv/SStop.v", "srv/Thm_C19.v"]}}
 TRUSTED = [
     "Coq 8.16.1 kernel (coqc; coqchk in the thorough tier); no native_compute",
     "extraction to OCaml (ExtrOcamlBasic, ExtrOcamlString for the control model; no Extract Constant); ocaml/sdriver.ml",
